@@ -361,8 +361,9 @@ func (x *Unit) externalCall(st *State, pc *preparedCall) []Term {
 		cv := x.U.Fun("ctx.value", []*Sort{SIface, SIface}, SIface)
 		x.derefIface(st, *pc.recv, pc.node)
 		return []Term{TG("("+cv+" "+pc.recv.S+" "+pc.args[0].S+")", SIface, resT(0))}
-	case "(reflect.Value).Call":
-		// user constructor runs here: arbitrary code
+	case "(reflect.Value).Call", "(reflect.Value).CallSlice":
+		// user constructor runs here: arbitrary code (CallSlice is the same invocation, for a variadic function whose last
+		// argument is already the slice); both are the trace event "the function value is invoked"
 		pc.name = "reflect.Value.Call"
 		return x.defaultDynamic(st, pc)
 	case "(reflect.Value).Set":
@@ -417,6 +418,14 @@ func (x *Unit) externalCall(st *State, pc *preparedCall) []Term {
 		case "(reflect.Type).Elem", "reflect.PointerTo", "(reflect.Value).Type":
 			if rets[0].Sort == SIface {
 				x.assume(st, Not(x.U.IsNilIface(rets[0])))
+			}
+		case "(reflect.Value).Interface":
+			// Interface() yields the nil interface only for a Value of kind Interface that holds nil (a nil pointer, map, ...
+			// comes back as a typed nil, i.e. a non-nil interface value)
+			if rets[0].Sort == SIface && len(targs) == 1 {
+				k := x.U.Fun(q("ext:(reflect.Value).Kind"), []*Sort{targs[0].Sort}, SInt)
+				n := x.U.Fun(q("ext:(reflect.Value).IsNil"), []*Sort{targs[0].Sort}, SBool)
+				x.assume(st, Implies(x.U.IsNilIface(rets[0]), And(T("(= ("+k+" "+targs[0].S+") 20)", SBool), T("("+n+" "+targs[0].S+")", SBool))))
 			}
 		}
 		return rets
